@@ -1601,7 +1601,11 @@ func (e *Entry) dup() *Entry {
 		}
 	}
 
-	// merge appends to the slices in Extra, so a copy must not share them.
+	// merge appends to Exts and to the slices in Extra, so a copy must not
+	// share them.
+	if e.Exts != nil {
+		ne.Exts = append([]*Statement{}, e.Exts...)
+	}
 	ne.Extra = make(map[string][]interface{})
 	for k, v := range e.Extra {
 		ne.Extra[k] = append([]interface{}{}, v...)
